@@ -1124,6 +1124,13 @@ def r_config_plumbing(repo, rep, R):
     differing = [show(d_)[:70] for d_ in dicts[1:] if d_ != dicts[0]]
     rep.check(not differing, R, w2, 'parsing.run:direct:one-dictionary', 'all in-process calls of depccg._parsing.run pass the one option dictionary',
               'depccg._parsing.run is also called with other options than the caller gave: %s' % differing[:2])
+    # one pass: run() does not call itself for some of the sentences with other settings (a retry of failed sentences with the
+    # beam switched off, with whatever options the inner call happens to spell out)
+    again = [n_ for n_ in ast.walk(prun) if isinstance(n_, ast.Call) and isinstance(n_.func, ast.Name) and n_.func.id == prun.name]
+    rep.check(not again, R, 'depccg/parsing.py:%s run' % (again[0].lineno if again else prun.lineno), 'parsing.run:single-pass',
+              'run() parses every sentence once, with the options of this call',
+              'run() calls itself (`%s`): some sentences are parsed a second time with other options, and their trees / scores are not those of the settings the caller gave'
+              % (src(again[0])[:60] if again else ''))
     for c_ in pooled:
         kwds = dict(c_[3]).get('kwds')
         inner = [v for k, v in kwds[1] if k is None] if kwds is not None and kwds[0] == 'dict' else []
